@@ -66,6 +66,29 @@ def run(pid, tier, seed, gate, replay=None):
         if o == "PANIC":
             failures.append((l, "panic"))
 
+    # pass S: the same encodings and round trips through the build with foyer-common's `serde` feature, where the blanket
+    # bincode impl of Code replaces the hand-written ones (same wire format: fixed-width little-endian, u64 length prefix)
+    serde_cases = 0
+    if pid == "C08":
+        fs = C.build_harness_serde()
+        encb = [l.partition("|")[0].strip() for l in impl1[len(enc):] if l.startswith("encb ")]
+        s1 = G.run_fmt(enc + encb, binary=fs)
+        m1 = G.run_model(s1)
+        sdec = []
+        for l in s1[:len(enc)]:
+            k = G.kv(l.partition("|")[0]); o = G.kv(G.obs(l))
+            if "hex" in o:
+                sdec.append(f"dec ty={k['ty']} hex={o['hex']} want={k['x']}")
+        s2 = G.run_fmt(sdec, binary=fs)
+        serde_cases = len(s1) + len(s2)
+        for a, b in zip(s1, m1):
+            if G.obs(a) != G.obs(b):
+                mism.append(("[serde feature] " + a, b))
+        for l in s2:
+            k = G.kv(l.partition("|")[0]); o = G.obs(l)
+            if o != f"ok x={k['want']} rest=0":
+                failures.append(("[serde feature] " + l, f"with the serde feature, {k['ty']}: decode(encode({k['want']})) gave `{o}`"))
+
     # pass 3: Buffer::push
     impl3 = G.run_fmt(push)
     minput, expect_extra = [], []
@@ -145,7 +168,7 @@ def run(pid, tier, seed, gate, replay=None):
         key = (k["comp"], "ok" if " ok=1 " in l else "rej")
         kinds[str(key)] = kinds.get(str(key), 0) + 1
     cov = dict(
-        evaluations=total,
+        evaluations=total + serde_cases,
         distinct_nontrivial=len(set(l.partition("|")[0] for l in impl1 + impl2 + impl3 if "PANIC" not in l and (" ok=1 " in l or "dec " in l or "enc " in l))),
         rule="numeric types at boundary + random bit patterns (encode, then decode through the implementation and the model); "
              "bool / Vec<u8> / String incl. invalid UTF-8, truncated and over-long inputs; encoding into too-small destinations; "
